@@ -80,6 +80,9 @@ THEOREMS = [
     "JanetModel.Props.C11.phys_insert_safe",
     "JanetModel.Props.C11.phys_api_history_safe",
     "JanetModel.Props.C11.stringend_rewrite_fits",
+    "JanetModel.Props.C11.stringend_loops_index_safe",
+    "JanetModel.Props.C11.stringend_rewrite_in_place",
+    "JanetModel.Props.C11.stringend_loop_source_ops",
     "JanetModel.Props.C11.generated_error_flag_iff",
     "JanetModel.Props.C11.generated_error_marked",
     "JanetModel.Props.C11.consumer_error_flag_discipline",
@@ -851,7 +854,7 @@ def run(ctx, replay_lines=None):
                 "(whole, parser/byte per byte, C-API per byte, 1-byte consumes with full state dumps, random chunkings mixing the three entry points "
                 "with clone points and interleaved status/where/state/has-more/produce/error/GC); a jdn case = one value term; non-trivial = distinct protocol line",
         "samples": [lines[0][:200], lines[len(lines) // 2][:200], rt_lines[-1][:200]],
-        "texts": len(texts), "schedules_per_text": nsched, "parser_runs": len(lines),
+        "texts": len(texts), "texts_with_long_string_delimiter": sum(1 for t in texts if b"`" in t["bytes"]), "schedules_per_text": nsched, "parser_runs": len(lines),
         "oracle_failures": len(fails), "digit_separator_family": dict(sep_stats), "heap_activity_error_texts": heap_texts, "heap_activity_runs_plain_build": heap_runs, "history_independence_forms_checked": hist_checked, "history_independence_error_forms": hist_errors, "sequence_texts": len(seqs), "correspondence_runs": model_lines, "correspondence_diffs": len(diffs),
         "jdn_terms": len(rt_lines), "jdn_results": dict(rt_stats), "jdn_printer_correspondence_diffs": len(pdiffs),
         "capacity_dumps_compared": sum(o.count(" cap:") for o in outs) if exe else 0,
